@@ -210,7 +210,7 @@ func (V *Verifier) frameCheck(fn *ssa.Function) []frameFinding {
 							args = append(args, cc.Args...)
 							matched := false
 							for i, pn := range cn.Params {
-								if pn == loc && i < len(args) {
+								if locMentions(loc, pn) && i < len(args) {
 									r := rootOf(args[i])
 									if V.isFreshRoot(r, map[ssa.Value]bool{}) {
 										matched = true
@@ -231,4 +231,23 @@ func (V *Verifier) frameCheck(fn *ssa.Function) []frameFinding {
 		}
 	}
 	return out
+}
+
+// locMentions: does the location expression mention the parameter name as a whole word?
+func locMentions(loc, name string) bool {
+	for i := 0; i+len(name) <= len(loc); i++ {
+		if loc[i:i+len(name)] != name {
+			continue
+		}
+		before := i == 0 || !isWordByte(loc[i-1])
+		after := i+len(name) == len(loc) || !isWordByte(loc[i+len(name)])
+		if before && after {
+			return true
+		}
+	}
+	return false
+}
+
+func isWordByte(b byte) bool {
+	return b == '_' || b >= 'a' && b <= 'z' || b >= 'A' && b <= 'Z' || b >= '0' && b <= '9'
 }
